@@ -3714,16 +3714,19 @@ impl<'data, P: Platform> ObjectLayoutState<'data, P> {
             .context("Cannot parse .riscv.attributes section")?;
         }
 
-        let export_all_dynamic = resources.symbol_db.output_kind == OutputKind::SharedObject
-            && (!self.input.has_archive_semantics()
-                || resources
-                    .symbol_db
-                    .args
-                    .should_export_dynamic(self.input.lib_name()))
-            || resources.symbol_db.output_kind.needs_dynsym()
-                && resources.symbol_db.args.should_export_all_dynamic_symbols();
+        // Symbols from libraries excluded by --exclude-libs are never exported.
+        let may_export = !self.input.has_archive_semantics()
+            || resources
+                .symbol_db
+                .args
+                .should_export_dynamic(self.input.lib_name());
+        let export_all_dynamic = may_export
+            && (resources.symbol_db.output_kind == OutputKind::SharedObject
+                || resources.symbol_db.output_kind.needs_dynsym()
+                    && resources.symbol_db.args.should_export_all_dynamic_symbols());
         if export_all_dynamic
-            || resources.symbol_db.output_kind.needs_dynsym()
+            || may_export
+                && resources.symbol_db.output_kind.needs_dynsym()
                 && resources.symbol_db.export_list.is_some()
         {
             self.load_non_hidden_symbols::<A>(common, resources, queue, export_all_dynamic, scope)?;
